@@ -231,7 +231,7 @@ def run(chk):
         # developer_mode itself must not be developer-only and default False
         dm = census["DailySettings"].get("developer_mode", {})
         r2.require(dm.get("default") is False and dm.get("developer") is False, f"{ds.key}.developer_mode|default-False", ds.module.rel, f"developer_mode must default to False and be user-settable; found {dm}")
-    chkfn = chk.repo.module(DS).functions.get("_check_developer_mode")
+    chkfn = chk.repo.try_func(DS, "_check_developer_mode")
     if chkfn is None:
         r2.require(False, f"{DS}:_check_developer_mode|present", "settings.py", "recursive _check_developer_mode function vanished")
     else:
